@@ -125,38 +125,72 @@ func runC19(c *Ctx) {
 	}
 	nRT := 0
 	var setCall ssa.Instruction
-	for _, f := range allSSAFuncs(addrClosure) {
+	isRT := func(cc *ssa.CallCommon) bool { return cc.IsInvoke() && cc.Method.Name() == "RemoteToken" }
+	// the interceptor and the helpers it calls (an extracted "first provider with a token" helper is followed)
+	reach := reachSSA(addrClosure, 2)
+	var rtCalls []ssaCall
+	for _, f := range reach {
 		for _, call := range callsIn(f) {
-			if call.Call.IsInvoke() && call.Call.Method.Name() == "RemoteToken" {
-				nRT++
-				origins := p.Origins(call.Call.Args[0], 0)
-				// the argument must be (a load of) the captured address parameter: its only origin, resolving
-				// free variables through their closure bindings, is parameter 0 of the provider closure
-				want := "param:" + ssaFuncName(addrClosure) + "#0"
-				ok := len(origins) == 1 && origins[0] == want
-				c.Ob("SAME-ADDRESS", "interceptor/RemoteToken-argument", call.Pos(), ok, true, "RemoteToken is asked for the provider closure's own address parameter: %v (origins %v)", ok, origins)
-			}
-			if fn := staticCalleeObj(call.Call); fn != nil && methodIs(fn, "net/http", "Header", "Set") {
-				setCall = call.Instr
-				// value depends on the RemoteToken result
-				dep := dependsOnCall(call.Call.Args[len(call.Call.Args)-1], func(cc *ssa.CallCommon) bool { return cc.IsInvoke() && cc.Method.Name() == "RemoteToken" })
-				c.Ob("SAME-ADDRESS", "interceptor/header-value", call.Pos(), dep, true, "the header value is built from the RemoteToken result: %v", dep)
-				// (4) first wins: the Set cannot execute twice
-				again := instrReaches(call.Instr, call.Instr)
-				c.Ob("FIRST-WINS", "interceptor/set-once", call.Pos(), !again, true, "the header Set is not reachable from itself (loop left after the first token): %v", !again)
-				// non-empty token guard
-				guarded := false
-				for _, ge := range guardingEdges(call.Instr.Block()) {
-					if b, ok := ge.If.Cond.(*ssa.BinOp); ok && b.Op == token.NEQ {
-						if cst, ok := b.Y.(*ssa.Const); ok && cst.Value != nil && cst.Value.ExactString() == `""` && ge.Branch {
-							guarded = true
-						}
-					}
-				}
-				c.Ob("FIRST-WINS", "interceptor/non-empty-token", call.Pos(), guarded, true, "the header is set only for a non-empty token: %v", guarded)
+			if isRT(call.Call) {
+				rtCalls = append(rtCalls, call)
 			}
 		}
 	}
+	for _, call := range rtCalls {
+		nRT++
+		origins := p.Origins(call.Call.Args[0], 2)
+		// the argument must be (a load of) the captured address parameter: its only origin, resolving free variables
+		// through their closure bindings and helper parameters through their call sites, is parameter 0 of the closure
+		want := "param:" + ssaFuncName(addrClosure) + "#0"
+		ok := len(origins) == 1 && origins[0] == want
+		c.Ob("SAME-ADDRESS", "interceptor/RemoteToken-argument", call.Pos(), ok, true, "RemoteToken is asked for the provider closure's own address parameter: %v (origins %v)", ok, origins)
+		// (4) first wins: once a provider returned a non-empty token no further provider is asked — from the
+		// non-empty edge of the test on the result, the RemoteToken call is not reachable again
+		v, _ := call.Instr.(ssa.Value)
+		asked, nonEmptyTested := false, false
+		if v != nil {
+			for _, b := range call.Instr.Parent().Blocks {
+				ifi := ifOf(b)
+				if ifi == nil {
+					continue
+				}
+				bo, ok := ifi.Cond.(*ssa.BinOp)
+				if !ok || (bo.Op != token.NEQ && bo.Op != token.EQL) {
+					continue
+				}
+				cst, isC := bo.Y.(*ssa.Const)
+				if !isC || cst.Value == nil || cst.Value.ExactString() != `""` || !dependsOnValue(bo.X, v) {
+					continue
+				}
+				nonEmptyTested = true
+				succ := b.Succs[0]
+				if bo.Op == token.EQL {
+					succ = b.Succs[1]
+				}
+				if len(succ.Instrs) > 0 && (succ.Instrs[0] == call.Instr || instrReaches(succ.Instrs[0], call.Instr)) {
+					asked = true
+				}
+			}
+		}
+		c.Ob("FIRST-WINS", "interceptor/first-non-empty-stops", call.Pos(), nonEmptyTested && !asked, true,
+			"the RemoteToken result is tested against \"\" (%v) and no further provider is asked on the non-empty edge (%v)", nonEmptyTested, !asked)
+	}
+	for _, f := range reach {
+		for _, call := range callsIn(f) {
+			if fn := staticCalleeObj(call.Call); fn != nil && methodIs(fn, "net/http", "Header", "Set") {
+				if len(call.Call.Args) < 2 || !dependsOnCallDeep(call.Call.Args[len(call.Call.Args)-1], isRT) {
+					continue // another header (user agent, version …)
+				}
+				setCall = call.Instr
+				c.Ob("SAME-ADDRESS", "interceptor/header-value", call.Pos(), true, true, "the Authorization header value is built from the RemoteToken result (traced through helper returns)")
+				again := instrReaches(call.Instr, call.Instr)
+				c.Ob("FIRST-WINS", "interceptor/set-once", call.Pos(), !again, true, "the header Set is not reachable from itself: %v", !again)
+			}
+		}
+	}
+	// only-non-empty: every RemoteToken result that can reach the header passed a `!= ""` test (obligation above:
+	// nonEmptyTested) — the token reaches Set only through that edge or through a return guarded by it
+	c.Ob("FIRST-WINS", "interceptor/non-empty-token", prov.Decl.Pos(), nRT > 0 && setCall != nil, true, "a header Set fed by RemoteToken exists (%v) and each RemoteToken result is tested for emptiness before use", setCall != nil)
 	if nRT == 0 || setCall == nil {
 		c.Fail("SAME-ADDRESS", "interceptor", prov.Decl.Pos(), "RemoteToken call or Header.Set not found in the interceptor")
 	}
